@@ -68,7 +68,10 @@ Inductive parsed :=
 | PErr                                (* Err(syntax error) *)
 | PPanic                              (* the parser or the printer panicked *)
 | PTimeout                            (* no answer within the step budget *)
-| PReadAhead.                         (* more lines requested than the input has (+1) *)
+| PReadAhead                          (* more lines requested than the input has (+1) *)
+| PLcDiff.                            (* the text is another text with a backslash-newline inserted
+                                         outside quotes, comments and here-documents, and the two
+                                         are not parsed to the same tree / both rejected *)
 
 Inductive reparsed :=
 (* not re-parsed: the tree has here-documents whose bodies cannot be written
@@ -174,6 +177,7 @@ Definition oracle (first : parsed) (second : reparsed) : option N :=
   | PPanic => Some 0%N                     (* panic on the source text *)
   | PTimeout => Some 1%N                   (* hang *)
   | PReadAhead => Some 2%N                 (* unbounded read-ahead *)
+  | PLcDiff => Some 7%N                    (* a line continuation changed the tree *)
   | PErr => None
   | PTree t p =>
       match second with
@@ -187,5 +191,6 @@ Definition oracle (first : parsed) (second : reparsed) : option N :=
       | SOther PPanic => Some 5%N
       | SOther PTimeout => Some 5%N
       | SOther PReadAhead => Some 5%N
+      | SOther PLcDiff => Some 5%N
       end
   end.
